@@ -269,9 +269,9 @@ async def execute(gen, ops, w: SockWorld, run: Run, counters=None):
         elif o == "reset":
             # what the heartbeat manager (or a user) does: public reset_connection()
             tasks.append(loop.create_task(_guarded(w, run, "reset", w.sock.reset_connection())))
-        elif o == "on_connect_send":
+        elif o in ("on_connect_send", "on_disconnect_send"):
             # a connection subscriber that submits a message from inside the connected
-            # notification (as the API classes do)
+            # (as the API classes do) / disconnected notification
             _, kind, polname = op[:3]
 
             def hook(kind=kind, polname=polname):
@@ -283,7 +283,7 @@ async def execute(gen, ops, w: SockWorld, run: Run, counters=None):
                        "data": data, "outcome": "pending", "ret_seq": None, "mode": "hook"}
                 run.sends.append(rec)
                 return do_send(msg, rec, pol)
-            w.on_connect_hooks.append(hook)
+            (w.on_connect_hooks if o == "on_connect_send" else w.on_disconnect_hooks).append(hook)
         elif o == "sub_raise":
             if op[1] == "msg":
                 w.raise_in_msg_sub = bool(op[2])
